@@ -2061,6 +2061,11 @@ def py_spec(case, obs):
 
 
 def classify(case, obs):
+    if case['kind'] == 'opt' and str(obs.get('crash', '')).startswith('get_sampled(') and \
+            under_reversal(case['tree'], effective_paths(case['tree'], case['S'])):
+        # the same unwritten sample (t = duration of the collapsed Sequence/RepetitionWaveform inside ReversedWaveform):
+        # NaN in a fresh array, the previous content in a caller-provided one
+        return 'collapsed_inside_reversal'
     if 'crash' in obs or 'hang' in obs:
         return None
     if case['kind'] == 'opt' and obs['opt'].get('raise') == 'KeyError' and linear_after_parallel(case['G']):
